@@ -56,12 +56,12 @@ def cases(tier, seed):
     nseeds = 3 if tier == "quick" else 12
     idx = 0
     for ratio in (0.0, 0.3, 0.6, 0.8):
-        for sign in ("pos", "neg", "pos_mixed", "neg_mixed", "neg_same"):
+        for sign in ("pos", "neg", "pos_mixed", "neg_mixed", "neg_same", "decoupled_first_pos", "decoupled_first_neg"):
             for k in range(8 if tier == "quick" else 40):
                 out.append({"kind": "herm", "cls": f"herm:{sign}", "ratio": ratio, "sign": sign, "idx": idx, "seed": seed,
                             "maxn": maxn, "nseeds": nseeds})
                 idx += 1
-    for cls in ("generic", "zero", "nilpotent", "rank1", "unitary", "upper_tri", "scaled"):
+    for cls in ("generic", "zero", "nilpotent", "lower_nilpotent", "zero_first_row", "zero_last_column", "rank1", "unitary", "upper_tri", "scaled"):
         for k in range(8 if tier == "quick" else 60):
             out.append({"kind": "bounded", "cls": "bounded:" + cls, "c": cls, "idx": idx, "seed": seed, "maxn": maxn, "nseeds": nseeds})
             idx += 1
@@ -115,10 +115,23 @@ def _herm(spec, ctx, R):
     rng = gen.rng_for(spec["seed"], "c19herm", spec["idx"])
     n = 1 + spec["idx"] % spec["maxn"] if spec["idx"] % 3 else int(rng.integers(2, spec["maxn"] + 1))
     r, sign = spec["ratio"], spec["sign"]
-    e = _spectrum(rng, n, r, sign)
+    decoupled = sign.startswith("decoupled_first")
+    if decoupled and n == 1:
+        decoupled = False
+    e = _spectrum(rng, n - 1 if decoupled else n, r, "pos" if sign.endswith("pos") else ("neg_mixed" if decoupled else sign))
     scale = [1.0, 1.0, 1e-3, 1e3, 1e-9, 1e-13, 1e9, 1.0][spec["idx"] % 8]
     e = e * scale
     A, Uq = refq.hermitian_with_eigs(rng, e)
+    if decoupled:
+        # A = [0] (+) H: the first coordinate is isolated (zero first row and column), 0 is an eigenvalue with eigenvector e_1
+        c = np.zeros((n, n, 4))
+        c[1:, 1:] = refq.fa(A)
+        A = refq.qa(c)
+        uc = np.zeros((n, n, 4))
+        uc[1:, :n - 1] = refq.fa(Uq)
+        uc[0, n - 1, 0] = 1.0
+        Uq = refq.qa(uc)
+        e = np.concatenate([e, [0.0]])
     lam1 = e[0]
     u1 = Uq[:, :1]
     r_eff = r if n >= 2 else 0.0
@@ -182,6 +195,18 @@ def _bounded(spec, ctx, R):
         cc = np.zeros((n, n, 4))
         for i in range(n - 1):
             cc[i, i + 1] = rng.standard_normal(4)
+        A = refq.qa(cc)
+    elif c == "lower_nilpotent":
+        cc = np.zeros((n, n, 4))
+        for i in range(n - 1):
+            cc[i + 1, :i + 1] = rng.standard_normal((i + 1, 4))
+        A = refq.qa(cc)
+    elif c in ("zero_first_row", "zero_last_column"):
+        cc = rng.standard_normal((n, n, 4))
+        if c == "zero_first_row":
+            cc[0, :] = 0.0
+        else:
+            cc[:, n - 1] = 0.0
         A = refq.qa(cc)
     elif c == "rank1":
         A = gen.structured(rng, "rank1", n, n)
